@@ -60,6 +60,8 @@ func (s Step) String() string {
 		return b + "cancel " + s.ID
 	case "push":
 		return fmt.Sprintf("%spush %s #%d d=%d", b, s.Push, s.K, s.D)
+	case "cbreply":
+		return fmt.Sprintf("%scbreply %s #%d %s n=%d", b, s.Push, s.K, s.Out, s.D)
 	case "pushcancel":
 		return fmt.Sprintf("%spushcancel #%d", b, s.K)
 	case "advance":
@@ -87,6 +89,7 @@ type Snapshot struct {
 // Event is one entry of the recorded history.
 type Event struct {
 	Seq    int       `json:"seq"`
+	T      int64     `json:"t,omitempty"` // fake nanoseconds since the start of the bubble
 	Step   int       `json:"step"`
 	Kind   string    `json:"kind"`
 	Conn   int       `json:"conn,omitempty"`
@@ -120,6 +123,7 @@ var Known = map[string]bool{"ret": true, "gate": true, "err": true, "cbgate": tr
 
 type world struct {
 	t     *testing.T
+	t0    time.Time
 	cfg   Config
 	sched *Sched
 	srv   *jrpc2.Server
@@ -148,6 +152,7 @@ type world struct {
 func (w *world) log(e Event) {
 	w.mu.Lock()
 	e.Seq = len(w.events)
+	e.T = int64(time.Since(w.t0))
 	e.Step = w.step
 	if e.Conn == 0 {
 		e.Conn = w.conn
@@ -414,6 +419,29 @@ func (w *world) waitStatus() {
 	}()
 }
 
+// callbackID finds on the wire the id the server gave to a callback request.
+func (w *world) callbackID(kind string, k int) string {
+	w.mu.Lock()
+	defer w.mu.Unlock()
+	want := fmt.Sprintf(`"params":{"p":%d}`, k)
+	if kind == "handler" {
+		want = fmt.Sprintf(`"params":{"k":%d}`, k)
+	}
+	for i := len(w.events) - 1; i >= 0; i-- {
+		e := w.events[i]
+		if e.Kind != "wire" || e.Conn != w.conn || !strings.Contains(e.Data, want) || !strings.Contains(e.Data, `"method"`) {
+			continue
+		}
+		var m struct {
+			ID json.RawMessage `json:"id"`
+		}
+		if json.Unmarshal([]byte(e.Data), &m) == nil && len(m.ID) > 0 {
+			return string(m.ID)
+		}
+	}
+	return ""
+}
+
 func (w *world) hasStatus(conn int) bool {
 	w.mu.Lock()
 	defer w.mu.Unlock()
@@ -508,6 +536,23 @@ func (w *world) exec(i int, st Step) {
 		if c != nil {
 			c()
 		}
+	case "cbreply":
+		// The peer answers the callback issued by push #K (Push=="push") or by
+		// the handler with nonce K (Push=="handler"): the id is looked up on the wire.
+		id := w.callbackID(st.Push, st.K)
+		if id == "" {
+			id = fmt.Sprint(9000 + st.K)
+		}
+		var rec string
+		switch st.Out {
+		case "error":
+			rec = fmt.Sprintf(`{"jsonrpc":"2.0","id":%s,"error":{"code":-32050,"message":"peer says no %d","data":{"p":%d}}}`, id, st.D, st.K)
+		default:
+			rec = fmt.Sprintf(`{"jsonrpc":"2.0","id":%s,"result":{"p":%d,"n":%d}}`, id, st.K, st.D)
+		}
+		w.log(Event{Kind: "cbreply", K: st.K, ID: id, Method: st.Push, Data: rec})
+		w.log(Event{Kind: "queue", Data: rec})
+		w.peerQ <- []byte(rec)
 	case "advance":
 		w.log(Event{Kind: "advance", K: st.D})
 		time.Sleep(time.Duration(st.D) * time.Millisecond)
@@ -516,6 +561,8 @@ func (w *world) exec(i int, st Step) {
 	case "restart":
 		if w.hasStatus(w.conn) {
 			w.log(Event{Kind: "restart"})
+			once, cli := w.peerOnce, w.peer
+			once.Do(func() { cli.Close() })
 			close(w.peerQ)
 			w.connect()
 		} else {
@@ -555,7 +602,7 @@ func Run(t *testing.T, sc Scenario) (h *History) {
 		}
 	}()
 	synctest.Test(t, func(t *testing.T) {
-		w = &world{t: t, cfg: sc.Cfg, sched: sched, gates: map[int]chan string{}, parked: map[int]bool{},
+		w = &world{t: t, t0: time.Now(), cfg: sc.Cfg, sched: sched, gates: map[int]chan string{}, parked: map[int]bool{},
 			pushCtx: map[int]context.CancelFunc{}, drain: make(chan struct{}), statusSet: map[int]bool{}}
 		h.Active0 = jrpc2.VerifServersActive()
 		opts := &jrpc2.ServerOptions{AllowPush: sc.Cfg.AllowPush, DisableBuiltin: sc.Cfg.DisableBuiltin, Concurrency: sc.Cfg.Concurrency}
@@ -581,7 +628,22 @@ func Run(t *testing.T, sc Scenario) (h *History) {
 		w.step = len(sc.Steps)
 		w.mu.Unlock()
 		w.log(Event{Kind: "epilogue"})
+		// The peer answers every callback that is still outstanding, so that
+		// handlers blocked inside Callback can go on (several rounds: a released
+		// handler may be followed by another one that pushes).
 		close(w.drain)
+		for round := 0; round < 6; round++ {
+			w.settle()
+			_, cbs, _, running := jrpc2.VerifServerSnapshot(w.srv)
+			if !running || len(cbs) == 0 {
+				break
+			}
+			for _, id := range cbs {
+				rec := fmt.Sprintf(`{"jsonrpc":"2.0","id":%s,"result":"epilogue"}`, id)
+				w.log(Event{Kind: "queue", Data: rec})
+				w.peerQ <- []byte(rec)
+			}
+		}
 		w.settle()
 		w.mu.Lock()
 		for _, c := range w.pushCtx {
